@@ -45,3 +45,11 @@ impl TransactionBuilder {
     #[verifier::external_body] pub fn add_mint_asset(&mut self, policy_script: &NativeScriptO, asset_name: &AssetNameO, amount: &IntO) -> (r: Result<(), JsError>)
         ensures *final(self) == (TransactionBuilder { mint: final(self).mint, ..*old(self) }) { unimplemented!() }
 }
+
+// ===== explicitly required signers (C18: one of the signer sources) ==============================================================================================
+opaque_types!(Ed25519KeyHashO);
+impl Ed25519KeyHashes {
+    /// the key hashes held (Ed25519KeyHashes::add is proved duplicate-free in unit dedup_keyhashes)
+    pub uninterp spec fn keys(&self) -> Set<Ed25519KeyHashO>;
+    #[verifier::external_body] pub fn add(&mut self, k: &Ed25519KeyHashO) -> (r: bool) ensures final(self).keys() == old(self).keys().insert(*k) { unimplemented!() }
+}
